@@ -28,6 +28,7 @@ type Rec struct {
 	Ctx      context.Context
 	CtxErrAtExit error
 	Method   string
+	Note     string // free-form observation recorded by the handler (e.g. outcome of a reverse call)
 	Sent     int64 // stream values handed to the channel
 	Closed   bool  // stream channel closed by handler
 	entered  chan struct{}
@@ -87,7 +88,7 @@ func (s *Svc) Get(tok string) Rec {
 	s.mu.Lock()
 	defer s.mu.Unlock()
 	r := s.rec(tok)
-	return Rec{Tok: r.Tok, Enters: r.Enters, Exits: r.Exits, Ctx: r.Ctx, CtxErrAtExit: r.CtxErrAtExit, Method: r.Method,
+	return Rec{Tok: r.Tok, Note: r.Note, Enters: r.Enters, Exits: r.Exits, Ctx: r.Ctx, CtxErrAtExit: r.CtxErrAtExit, Method: r.Method,
 		Sent: atomic.LoadInt64(&r.Sent), Closed: r.Closed, entered: r.entered, exited: r.exited}
 }
 func (s *Svc) Enters(tok string) int { return s.Get(tok).Enters }
@@ -390,7 +391,12 @@ func (s *Svc) Rev(ctx context.Context, tok string, k int, which int) (string, er
 			last, err = rc.RHold(ctx, t)
 		case 5:
 			last, err = rc.RBoom(ctx, t, 0)
+		case 6: // detached context: only the library's own failure path can end this call
+			last, err = rc.RHold(context.Background(), t)
 		}
+		s.mu.Lock()
+		r.Note += fmt.Sprintf("[%s -> %q err=%v]", t, last, err)
+		s.mu.Unlock()
 		if err != nil {
 			return "", fmt.Errorf("REVERR[%s]:%s", t, err.Error())
 		}
